@@ -224,6 +224,24 @@ NA = {
 # properties designed as claimed but whose check is not built yet are listed as not applicable until the check exists
 PENDING = 'check designed in DESIGN.md section 4 but not yet built; not claimed until the rule engine for it is committed'
 
+# fourth session: rules added after the batch k seeds and the U1-U3 refactoring round
+ADDENDA4 = {
+ 'C01': ('Floor curves are read from the packet in channel order: the call through vorbis_func_floor.inverse1 sits in one loop over the channels and depends on no submap filter (R01.10).', ''),
+ 'C02': ('What a clear function will walk is initialised: an owning pointer array is calloc\'ed, grown by realloc, or malloc\'ed only under a zero count or right before a fill loop that cannot be left early (R02.12 = R13.14).', ''),
+ 'C03': ('A clean-up releases only what was set up (R03.14 = R12.11); the sentinel-loop rule R03.2 also sees do-while loops.', ''),
+ 'C07': ('A track-only block advances the position bookkeeping exactly as a decoded one: vorbis_synthesis_blockin is interpreted in two constant contexts (vb->pcm NULL / not NULL) with marker values and the window history, sequence number, sample count and granule position at the success returns are compared (R07.13); the seek helper moves its bookkeeping only after the callback succeeded (R07.14 = R12.6).', ' + K4 runs in constant calling contexts with marker values'),
+ 'C08': ('Track-only blocks advance the bookkeeping (R08.13 = R07.13); a seek answers 0 only after a call from which the seek helper is reachable (R08.14); ogg_page_granulepos is consulted only for a page whose serial number was compared on that path (R08.15).', ' + must-pass-through over callee closures'),
+ 'C09': ('A read error met by the scans that build the link tables is never taken for the end of the data: every call of a function that can answer OV_EREAD is analysed with that answer forced and every return reached afterwards is negative (R09.13 = R12.13; finding F48 repaired); the read callback\'s fread convention -- errno cleared before, a zero count checked against errno -- is kept (R09.14 = R12.14).', ' + forced-outcome K4 runs per call site'),
+ 'C10': ('Handing a cleared half-rate request on cannot fail: vorbis_synthesis_halfrate interpreted with flag == 0 returns 0 on every path that has a codec set-up (R10.11).', ''),
+ 'C11': ('R11.5 is decided semantically: vorbis_synthesis_blockin is interpreted for a first block, a sequence gap and an in-sequence block with marker values in the running counters; a gap forgets both, an unbroken sequence keeps both.', ' + K4 runs in constant calling contexts with marker values'),
+ 'C12': ('The seek entry points answer 0 only after a repositioning call (R12.12 = R08.14); a read error during the open-time scans propagates as a negative return from every call site (R12.13, finding F48); the errno convention of the read callback is kept (R12.14).', ' + forced-outcome K4 runs per call site'),
+ 'C13': ('What a release function walks is initialised (R13.14); a block is released with the dimensions it was allocated with -- the count source handed to a file-local allocating and releasing helper pair is not re-assigned in between (R13.15).', ''),
+ 'C15': ('Template table extents cover every index set-up can form (R15.1): K4 is run once per template of setup_list over vorbis_encode_setup_init, vorbis_encode_setup_setting, setting_to_approx_bitrate and their helpers with an abstract pointer domain over the constant mode tables (evaluated initialisers); every subscript, -> and memcpy source through a table pointer is an obligation per template (about 170 sites x 17 templates); lemmas CONVEX and FRAC are named in evidence, the rounding of the interpolated index is an assumption.  The blob choice stays inside packetblob[] (R15.14 = R05.6).', ' + template-instantiated K4 with an abstract pointer domain over constant initialisers'),
+ 'C17': ('K4 rounds values converted to single precision, so a clip bound of (float)INT_MAX is seen as 2^31 (R17.8).', ''),
+ 'C18': ('The size argument of memset/memcpy/memmove on elements wider than a byte is a byte count (constant or with a sizeof factor), so no tail of a buffer keeps stale stack or heap contents (R18.8).', ''),
+ 'C19': ('The lapped time-seek worker and the plain time seeks accept the same times: K4 at T-1/2, T and T+1 on a single-link handle of total time T (R19.13); values read from ov_info(vf,-1) before _ov_initset are stale when the handle is entered below STREAMSET (R19.10 with K5 entry states).', ' + K4 probes at constant arguments'),
+}
+
 def main():
     props = [json.loads(l)['id'] for l in open(os.path.join(V, 'properties.jsonl'))]
     checks = []
@@ -233,6 +251,9 @@ def main():
             if pid in ADDENDA:
                 text = text + ' ' + ADDENDA[pid][0]
                 tech = tech + ADDENDA[pid][1]
+            if pid in ADDENDA4:
+                text = text + ' ' + ADDENDA4[pid][0]
+                tech = tech + ADDENDA4[pid][1]
             checks.append({
                 'property_id': pid,
                 'quick_cmd': f'./check {pid} --tier quick',
